@@ -259,4 +259,373 @@ Section CBLDMProofs.
   Example cbldm_empty_IndexError : cbldm valueof 2 [] true 1 true None = Err IndexError.
   Proof. reflexivity. Qed.
 
+  (** ** The recursion, one step at a time *)
+  Notation subp := (@sub A).
+  Notation state := (@cb_state A).
+
+  Definition tick (st : state) : state :=
+    mk_cb (cb_best st) (cb_delta st) (cb_opt st) (S (cb_ticks st)).
+  Definition stop (limit : option nat) (st : state) : bool :=
+    match limit with Some n => Nat.ltb n (cb_ticks st) | None => false end || cb_opt st.
+  Definition leaf_step (d : Z) (p : subp) (st : state) : state :=
+    if (len_diff p <=? d) && lt_delta (sum_diff p) (cb_delta st)
+    then mk_cb (Some p) (Some (sum_diff p)) (sum_diff p =? 0) (cb_ticks st) else st.
+  (** the quantity [2 max - sum] used by both prunes *)
+  Definition prune_bound (f : subp -> Z) (subs : list subp) : Z :=
+    2 * zmax_list 0 (map f subs) - zsum (map f subs).
+  Definition pruned (d : Z) (subs : list subp) (st : state) : bool :=
+    ge_delta (prune_bound sum_diff subs) (cb_delta st) || (d <? prune_bound len_diff subs).
+  Definition reorder (n : nat) (subs : list subp) : list subp :=
+    if Nat.leb (length subs) (Nat.div (n + 1) 2) then sort_asc (fun s => - sum_diff s) subs else subs.
+  Definition merge_bin (x y : bin A) : bin A := combine_bin (combine_bin empty_bin x) y.
+  Definition mk_comb (a b : subp) : subp :=
+    sort_bins (pair_bins (merge_bin (bin_at a 0) (bin_at b 0)) (merge_bin (bin_at a 1) (bin_at b 1))).
+  Definition mk_split (a b : subp) : subp :=
+    sort_bins (pair_bins (merge_bin (bin_at a 1) (bin_at b 0)) (merge_bin (bin_at a 0) (bin_at b 1))).
+
+  Lemma if_orb {T} (a b : bool) (X Y : T) :
+    (if a then X else if b then X else Y) = (if a || b then X else Y).
+  Proof. destruct a; reflexivity. Qed.
+
+  Lemma cb_part_unfold n d limit fuel subs st :
+    cb_part n d limit fuel subs st =
+    if stop limit (tick st) then tick st else
+    match subs with
+    | [] => tick st
+    | [p] => leaf_step d p (tick st)
+    | _ :: _ :: _ =>
+        if pruned d subs (tick st) then tick st else
+        match fuel, reorder n subs with
+        | S f, a :: b :: rest =>
+            cb_part n d limit f (rest ++ [mk_comb a b])
+                    (cb_part n d limit f (rest ++ [mk_split a b]) (tick st))
+        | _, _ => tick st
+        end
+    end.
+  Proof.
+    destruct fuel as [|f]; cbn [cb_part]; fold (tick st); fold (stop limit (tick st)).
+    all: destruct (stop limit (tick st)); [reflexivity|].
+    all: destruct subs as [|p [|q r]]; try reflexivity.
+    all: unfold pruned, prune_bound; apply if_orb.
+  Qed.
+
+  Lemma reorder_perm n subs : Permutation (reorder n subs) subs.
+  Proof. unfold reorder. destruct (Nat.leb _ _); [apply sort_asc_perm|reflexivity]. Qed.
+
+  Lemma reorder_length n subs : length (reorder n subs) = length subs.
+  Proof. apply Permutation_length, reorder_perm. Qed.
+
+  (** ** Structural facts on two-bin sub-partitions *)
+  Definition sub_ok (s : subp) : Prop := length s = 2%nat /\ wf valueof s.
+  Definition all_contents (subs : list subp) : list A := concat (map contents subs).
+  Definition subs_ok (items : list A) (subs : list subp) : Prop :=
+    Forall sub_ok subs /\ Permutation (all_contents subs) items.
+
+  Lemma contents_two (a : subp) : length a = 2%nat -> contents a = snd (bin_at a 0) ++ snd (bin_at a 1).
+  Proof.
+    destruct a as [|x [|y [|z t]]]; simpl; intros H; try discriminate H.
+    unfold contents, lists. simpl. rewrite app_nil_r. reflexivity.
+  Qed.
+
+  Lemma bin_at_wf (s : subp) i : wf valueof s -> wf_bin valueof (bin_at s i).
+  Proof.
+    unfold bin_at, wf. intros H. destruct (nth_in_or_default i s empty_bin) as [Hin|E].
+    - rewrite Forall_forall in H. apply H. exact Hin.
+    - rewrite E. reflexivity.
+  Qed.
+
+  Lemma merge_bin_wf x y : wf_bin valueof x -> wf_bin valueof y -> wf_bin valueof (merge_bin x y).
+  Proof.
+    intros Hx Hy. unfold merge_bin. apply combine_bin_wf; [|exact Hy].
+    apply combine_bin_wf; [reflexivity|exact Hx].
+  Qed.
+
+  Lemma merge_bin_fst x y : fst (merge_bin x y) = fst x + fst y.
+  Proof. unfold merge_bin, combine_bin, empty_bin. simpl. lia. Qed.
+
+  Lemma merge_bin_snd x y : snd (merge_bin x y) = snd x ++ snd y.
+  Proof. reflexivity. Qed.
+
+  Lemma sort_bins_two (x y : bin A) :
+    sort_bins (pair_bins x y) = if fst x <=? fst y then [x; y] else [y; x].
+  Proof. reflexivity. Qed.
+
+  Lemma pair_sorted_ok x y : wf_bin valueof x -> wf_bin valueof y -> sub_ok (sort_bins (pair_bins x y)).
+  Proof.
+    intros Hx Hy. split; [rewrite sort_bins_length; reflexivity|].
+    apply sort_bins_wf. unfold pair_bins. repeat constructor; assumption.
+  Qed.
+
+  Lemma pair_sorted_contents (x y : bin A) :
+    Permutation (contents (sort_bins (pair_bins x y))) (snd x ++ snd y).
+  Proof.
+    rewrite sort_bins_contents. unfold pair_bins, contents, lists. simpl. rewrite app_nil_r. reflexivity.
+  Qed.
+
+  Lemma mk_split_ok a b : sub_ok a -> sub_ok b ->
+    sub_ok (mk_split a b) /\ Permutation (contents (mk_split a b)) (contents a ++ contents b).
+  Proof.
+    intros [La Wa] [Lb Wb]. split.
+    - apply pair_sorted_ok; apply merge_bin_wf; apply bin_at_wf; assumption.
+    - unfold mk_split. rewrite pair_sorted_contents, !merge_bin_snd.
+      rewrite (contents_two a La), (contents_two b Lb). rewrite <- !app_assoc.
+      etransitivity; [|apply Permutation_app_swap_app].
+      apply Permutation_app_head. apply Permutation_app_swap_app.
+  Qed.
+
+  Lemma mk_comb_ok a b : sub_ok a -> sub_ok b ->
+    sub_ok (mk_comb a b) /\ Permutation (contents (mk_comb a b)) (contents a ++ contents b).
+  Proof.
+    intros [La Wa] [Lb Wb]. split.
+    - apply pair_sorted_ok; apply merge_bin_wf; apply bin_at_wf; assumption.
+    - unfold mk_comb. rewrite pair_sorted_contents, !merge_bin_snd.
+      rewrite (contents_two a La), (contents_two b Lb). rewrite <- !app_assoc.
+      apply Permutation_app_head. apply Permutation_app_swap_app.
+  Qed.
+
+  Lemma all_contents_perm subs subs' :
+    Permutation subs subs' -> Permutation (all_contents subs) (all_contents subs').
+  Proof.
+    unfold all_contents. induction 1 as [|x l l' P IH|x y l|l l' l'' P1 IH1 P2 IH2]; simpl.
+    - reflexivity.
+    - apply Permutation_app_head. exact IH.
+    - rewrite !app_assoc. apply Permutation_app_tail. apply Permutation_app_comm.
+    - etransitivity; eassumption.
+  Qed.
+
+  Lemma subs_ok_perm items subs subs' : Permutation subs subs' -> subs_ok items subs -> subs_ok items subs'.
+  Proof.
+    intros P [H1 H2]. split.
+    - eapply Permutation_Forall; eassumption.
+    - rewrite <- (all_contents_perm subs subs' P). exact H2.
+  Qed.
+
+  Lemma subs_ok_child items a b rest c :
+    subs_ok items (a :: b :: rest) ->
+    sub_ok c /\ Permutation (contents c) (contents a ++ contents b) ->
+    subs_ok items (rest ++ [c]).
+  Proof.
+    intros [H1 H2] [Hc Pc]. inversion H1 as [|a0 l0 Ha H1']; subst. inversion H1' as [|b0 l1 Hb Hr]; subst.
+    split.
+    - apply Forall_app. split; [exact Hr|]. constructor; [exact Hc|constructor].
+    - rewrite <- H2. unfold all_contents. rewrite map_app, concat_app. simpl. rewrite app_nil_r.
+      rewrite Pc. etransitivity; [apply Permutation_app_comm|]. rewrite <- app_assoc. reflexivity.
+  Qed.
+
+  Lemma subs_ok_split n items subs a b rest :
+    subs_ok items subs -> reorder n subs = a :: b :: rest -> subs_ok items (rest ++ [mk_split a b]).
+  Proof.
+    intros H E. assert (H' : subs_ok items (a :: b :: rest)).
+    { rewrite <- E. eapply subs_ok_perm; [symmetry; apply reorder_perm|exact H]. }
+    eapply subs_ok_child; [exact H'|]. destruct H' as [H1 _].
+    inversion H1 as [|a0 l0 Ha H1']; subst. inversion H1' as [|b0 l1 Hb Hr]; subst.
+    apply mk_split_ok; assumption.
+  Qed.
+
+  Lemma subs_ok_comb n items subs a b rest :
+    subs_ok items subs -> reorder n subs = a :: b :: rest -> subs_ok items (rest ++ [mk_comb a b]).
+  Proof.
+    intros H E. assert (H' : subs_ok items (a :: b :: rest)).
+    { rewrite <- E. eapply subs_ok_perm; [symmetry; apply reorder_perm|exact H]. }
+    eapply subs_ok_child; [exact H'|]. destruct H' as [H1 _].
+    inversion H1 as [|a0 l0 Ha H1']; subst. inversion H1' as [|b0 l1 Hb Hr]; subst.
+    apply mk_comb_ok; assumption.
+  Qed.
+
+  Lemma subs_ok_leaf items p : subs_ok items [p] -> is_partition valueof 2 items p.
+  Proof.
+    intros [H1 H2]. inversion H1 as [|p0 l0 [Lp Wp] _]; subst.
+    unfold all_contents in H2. simpl in H2. rewrite app_nil_r in H2. split; [exact H2|split; assumption].
+  Qed.
+
+  (** ** Signed gaps: the pair (sum gap, count gap) of a sub-partition *)
+  Definition blen (x : bin A) : Z := Z.of_nat (length (snd x)).
+  Definition ssum (p : subp) : Z := fst (bin_at p 1) - fst (bin_at p 0).
+  Definition slen (p : subp) : Z := blen (bin_at p 1) - blen (bin_at p 0).
+  Definition gauge (p : subp) : Z * Z := (ssum p, slen p).
+
+  Lemma sum_diff_abs p : sum_diff p = Z.abs (ssum p).
+  Proof. unfold sum_diff, ssum. lia. Qed.
+  Lemma len_diff_abs p : len_diff p = Z.abs (slen p).
+  Proof. unfold len_diff, slen, blen. lia. Qed.
+
+  Lemma merge_bin_blen x y : blen (merge_bin x y) = blen x + blen y.
+  Proof. unfold blen. rewrite merge_bin_snd, app_length. lia. Qed.
+
+  Lemma gauge_pair_sorted (x y : bin A) :
+    exists s : bool, gauge (sort_bins (pair_bins x y)) =
+      if s then (fst y - fst x, blen y - blen x) else (fst x - fst y, blen x - blen y).
+  Proof.
+    rewrite sort_bins_two. destruct (fst x <=? fst y); [exists true|exists false]; reflexivity.
+  Qed.
+
+  Lemma gauge_comb a b : exists s : bool, gauge (mk_comb a b) =
+    if s then (ssum a + ssum b, slen a + slen b) else (- (ssum a + ssum b), - (slen a + slen b)).
+  Proof.
+    unfold mk_comb. destruct (gauge_pair_sorted (merge_bin (bin_at a 0) (bin_at b 0)) (merge_bin (bin_at a 1) (bin_at b 1))) as [s E].
+    exists s. rewrite E. rewrite !merge_bin_fst, !merge_bin_blen. unfold ssum, slen.
+    destruct s; f_equal; lia.
+  Qed.
+
+  Lemma gauge_split a b : exists s : bool, gauge (mk_split a b) =
+    if s then (ssum a - ssum b, slen a - slen b) else (- (ssum a - ssum b), - (slen a - slen b)).
+  Proof.
+    unfold mk_split. destruct (gauge_pair_sorted (merge_bin (bin_at a 1) (bin_at b 0)) (merge_bin (bin_at a 0) (bin_at b 1))) as [s E].
+    exists (negb s). rewrite E. rewrite !merge_bin_fst, !merge_bin_blen. unfold ssum, slen.
+    destruct s; simpl; f_equal; lia.
+  Qed.
+
+  (** every sub-partition built by a node is sorted by sum *)
+  Lemma pair_sorted_sorted (x y : bin A) : 0 <= ssum (sort_bins (pair_bins x y)).
+  Proof. rewrite sort_bins_two. destruct (fst x <=? fst y) eqn:E; unfold ssum, bin_at; cbn [nth]; lia. Qed.
+
+  (** 5 (bridging): with both inputs sorted by sum, the children's sum gaps are
+      [|x_a - x_b|] (split) and [x_a + x_b] (combined) *)
+  Lemma sum_diff_split a b : sum_diff (mk_split a b) = Z.abs (ssum a - ssum b).
+  Proof.
+    rewrite sum_diff_abs. destruct (gauge_split a b) as [s E]. unfold gauge in E.
+    destruct s; injection E as E1 E2; lia.
+  Qed.
+  Lemma sum_diff_comb a b : sum_diff (mk_comb a b) = Z.abs (ssum a + ssum b).
+  Proof.
+    rewrite sum_diff_abs. destruct (gauge_comb a b) as [s E]. unfold gauge in E.
+    destruct s; injection E as E1 E2; lia.
+  Qed.
+  Lemma sum_diff_split_sorted a b : 0 <= ssum a -> 0 <= ssum b ->
+    sum_diff (mk_split a b) = Z.abs (sum_diff a - sum_diff b).
+  Proof. intros Ha Hb. rewrite sum_diff_split, !sum_diff_abs. lia. Qed.
+  Lemma sum_diff_comb_sorted a b : 0 <= ssum a -> 0 <= ssum b ->
+    sum_diff (mk_comb a b) = sum_diff a + sum_diff b.
+  Proof. intros Ha Hb. rewrite sum_diff_comb, !sum_diff_abs. lia. Qed.
+  Lemma len_diff_split a b : len_diff (mk_split a b) = Z.abs (slen a - slen b).
+  Proof.
+    rewrite len_diff_abs. destruct (gauge_split a b) as [s E]. unfold gauge in E.
+    destruct s; injection E as E1 E2; lia.
+  Qed.
+  Lemma len_diff_comb a b : len_diff (mk_comb a b) = Z.abs (slen a + slen b).
+  Proof.
+    rewrite len_diff_abs. destruct (gauge_comb a b) as [s E]. unfold gauge in E.
+    destruct s; injection E as E1 E2; lia.
+  Qed.
+
+  (** ** The leaves of the search tree (no pruning, no interruption) *)
+  Inductive leaf_below (n : nat) : list subp -> subp -> Prop :=
+  | LB_leaf p : leaf_below n [p] p
+  | LB_split subs a b rest p :
+      reorder n subs = a :: b :: rest -> leaf_below n (rest ++ [mk_split a b]) p -> leaf_below n subs p
+  | LB_comb subs a b rest p :
+      reorder n subs = a :: b :: rest -> leaf_below n (rest ++ [mk_comb a b]) p -> leaf_below n subs p.
+
+  Lemma SC_head_eq x y x' y' l v : SC ((x, y) :: l) v ->
+    (x' = x /\ y' = y) \/ (x' = - x /\ y' = - y) -> SC ((x', y') :: l) v.
+  Proof.
+    intros H [[-> ->]|[-> ->]]; [exact H|apply SC_head_flip; exact H].
+  Qed.
+
+  Lemma SC_merge_eq xa ya xb yb (s : bool) x y l v :
+    SC ((x, y) :: l) v ->
+    x = xa + (if s then xb else - xb) -> y = ya + (if s then yb else - yb) ->
+    SC ((xa, ya) :: (xb, yb) :: l) v.
+  Proof. intros H -> ->. eapply SC_merge. exact H. Qed.
+
+  Lemma SC_snoc_cons (g : Z * Z) l v : SC (l ++ [g]) v <-> SC (g :: l) v.
+  Proof.
+    split; apply SC_perm; [symmetry|]; apply Permutation_cons_append.
+  Qed.
+
+  (** a leaf's signed gaps are a signed combination of the node's *)
+  Lemma leaf_SC n subs p : leaf_below n subs p -> SC (map gauge subs) (gauge p).
+  Proof.
+    induction 1 as [p|subs a b rest p E H IH|subs a b rest p E H IH].
+    - simpl. unfold gauge. eapply (SC_cons true); [apply SC_nil| |]; lia.
+    - eapply SC_perm; [apply Permutation_map; apply reorder_perm|]. rewrite E.
+      rewrite map_app in IH. simpl in IH. apply SC_snoc_cons in IH. simpl.
+      destruct (gauge_split a b) as [s Es]. rewrite Es in IH.
+      unfold gauge at 1 2. eapply (SC_merge_eq _ _ _ _ false (ssum a - ssum b) (slen a - slen b)); [|lia|lia].
+      destruct s; [exact IH|]. eapply SC_head_eq; [exact IH|]. right. split; lia.
+    - eapply SC_perm; [apply Permutation_map; apply reorder_perm|]. rewrite E.
+      rewrite map_app in IH. simpl in IH. apply SC_snoc_cons in IH. simpl.
+      destruct (gauge_comb a b) as [s Es]. rewrite Es in IH.
+      unfold gauge at 1 2. eapply (SC_merge_eq _ _ _ _ true (ssum a + ssum b) (slen a + slen b)); [|lia|lia].
+      destruct s; [exact IH|]. eapply SC_head_eq; [exact IH|]. right. split; lia.
+  Qed.
+
+  (** conversely every signed combination is realised (up to a global sign) by a leaf *)
+  Lemma SC_leaf n m : forall subs v w, length subs = S m -> SC (map gauge subs) (v, w) ->
+    exists p, leaf_below n subs p /\ (gauge p = (v, w) \/ gauge p = (- v, - w)).
+  Proof.
+    induction m as [|m IH]; intros subs v w Hl H.
+    - destruct subs as [|p [|q r]]; try discriminate Hl. exists p. split; [constructor|].
+      simpl in H. inversion H as [|s x y l v0 w0 v' w' H0 Hv Hw]; subst.
+      inversion H0; subst. unfold gauge. destruct s; [left|right]; f_equal; lia.
+    - pose proof (reorder_length n subs) as Hr.
+      destruct (reorder n subs) as [|a [|b rest]] eqn:E; simpl in Hr; try lia.
+      assert (H' : SC (map gauge (a :: b :: rest)) (v, w)).
+      { rewrite <- E. eapply SC_perm; [apply Permutation_map; symmetry; apply reorder_perm|exact H]. }
+      simpl in H'. unfold gauge at 1 2 in H'. apply SC_unmerge in H'. destruct H' as [H'|H'].
+      + destruct (gauge_comb a b) as [s Es].
+        assert (Hc : SC (map gauge (rest ++ [mk_comb a b])) (v, w)).
+        { rewrite map_app. simpl. apply SC_snoc_cons. rewrite Es.
+          destruct s; [exact H'|]. eapply SC_head_eq; [exact H'|]. right. split; reflexivity. }
+        destruct (IH (rest ++ [mk_comb a b]) v w) as (p & Hp & Hg); [rewrite app_length; simpl; lia|exact Hc|].
+        exists p. split; [eapply LB_comb; eassumption|exact Hg].
+      + destruct (gauge_split a b) as [s Es].
+        assert (Hc : SC (map gauge (rest ++ [mk_split a b])) (v, w)).
+        { rewrite map_app. simpl. apply SC_snoc_cons. rewrite Es.
+          destruct s; [exact H'|]. eapply SC_head_eq; [exact H'|]. right. split; reflexivity. }
+        destruct (IH (rest ++ [mk_split a b]) v w) as (p & Hp & Hg); [rewrite app_length; simpl; lia|exact Hc|].
+        exists p. split; [eapply LB_split; eassumption|exact Hg].
+  Qed.
+
+  Lemma leaf_below_nonempty n subs p : leaf_below n subs p -> subs <> [].
+  Proof.
+    intros H E. subst. inversion H as [|subs a b rest p0 Er _|subs a b rest p0 Er _]; subst;
+      pose proof (reorder_length n []) as Hr; rewrite Er in Hr; discriminate Hr.
+  Qed.
+
+  Lemma leaf_below_single n q p : leaf_below n [q] p -> p = q.
+  Proof.
+    intros H. inversion H as [|subs a b rest p0 Er _|subs a b rest p0 Er _]; subst; auto;
+      pose proof (reorder_length n [q]) as Hr; rewrite Er in Hr; discriminate Hr.
+  Qed.
+
+  (** ** 5. The sum prune and 4(i). the count prune are sound: [2 max - sum] of the
+      node's gaps is a lower bound of the gap of every leaf below the node *)
+  Theorem sum_prune_sound n subs p : leaf_below n subs p -> prune_bound sum_diff subs <= sum_diff p.
+  Proof.
+    intros H. apply leaf_SC in H. apply SC_bound_fst in H. rewrite !map_map in H.
+    unfold prune_bound. rewrite sum_diff_abs.
+    rewrite (map_ext sum_diff (fun x => Z.abs (fst (gauge x)))); [exact H|].
+    intros q. apply sum_diff_abs.
+  Qed.
+
+  Theorem len_prune_sound n subs p : leaf_below n subs p -> prune_bound len_diff subs <= len_diff p.
+  Proof.
+    intros H. apply leaf_SC in H. apply SC_bound_snd in H. rewrite !map_map in H.
+    unfold prune_bound. rewrite len_diff_abs.
+    rewrite (map_ext len_diff (fun x => Z.abs (snd (gauge x)))); [exact H|].
+    intros q. apply len_diff_abs.
+  Qed.
+
+  (** the arithmetic statement in the form asked for: sum gaps [xs] of the node,
+      any sign vector *)
+  Theorem sum_prune_arith : forall signs xs, Forall (fun x => 0 <= x) xs -> length signs = length xs ->
+    2 * zmax_list 0 xs - zsum xs <= Z.abs (signed_sum signs xs).
+  Proof. exact signed_sum_prune. Qed.
+
+  (** and every leaf's sum gap is such a signed combination of the node's sum gaps *)
+  Theorem leaf_signed_sum n subs p : leaf_below n subs p ->
+    exists signs, length signs = length subs /\
+                  sum_diff p = Z.abs (signed_sum signs (map sum_diff subs)) /\
+                  Forall (fun x => 0 <= x) (map sum_diff subs).
+  Proof.
+    intros H. apply leaf_SC in H. apply SC_signs in H. destruct H as (signs & Hl & E1 & _).
+    rewrite map_length in Hl. simpl in E1. rewrite map_map in E1.
+    destruct (signed_sum_abs signs (map (fun x => fst (gauge x)) subs)) as (signs' & Hl' & E'); [rewrite map_length; exact Hl|].
+    rewrite map_length in Hl'. exists signs'. split; [exact Hl'|]. split.
+    - rewrite sum_diff_abs, E1, E'. rewrite map_map.
+      rewrite (map_ext sum_diff (fun x => Z.abs (fst (gauge x)))); [reflexivity|]. intros q. apply sum_diff_abs.
+    - rewrite Forall_map. apply Forall_forall. intros q _. rewrite sum_diff_abs. lia.
+  Qed.
+
 End CBLDMProofs.
